@@ -407,11 +407,13 @@ func (g *gen) genPkg(pkg *Pkg, earlier []*Pkg) {
 				if i == np-1 && g.chance("variadic", 40) {
 					wi = 4
 				}
-				w.Params = append(w.Params, &Var{Name: fmt.Sprintf("p%d", g.vseq), ID: g.p.NewID(),
-					Ref: &TypeRef{Type: st[g.pick("sigType", len(st))], Ptr: g.chance("sigPtr", 40), Wrap: wraps[wi]}})
+				pref := &TypeRef{Type: st[g.pick("sigType", len(st))], Ptr: g.chance("sigPtr", 40), Wrap: wraps[wi]}
+				g.mapKey(pref, visibleTypes(types, earlier))
+				w.Params = append(w.Params, &Var{Name: fmt.Sprintf("p%d", g.vseq), ID: g.p.NewID(), Ref: pref})
 			}
 			if g.chance("sigResult", 60) {
 				w.Results = []*TypeRef{{Type: st[g.pick("sigResType", len(st))], Ptr: g.chance("sigPtr", 40), Wrap: wraps[g.pick("sigResWrap", 3)]}}
+				g.mapKey(w.Results[0], visibleTypes(types, earlier))
 				w.ResultIDs = []int{g.p.NewID()}
 				w.RetExpr = "nil"
 			}
@@ -562,7 +564,23 @@ func (g *gen) genPkg(pkg *Pkg, earlier []*Pkg) {
 		seen := append(append([]*Pkg{}, earlier...), pkg)
 		nx := rapid.IntRange(1, 2).Draw(t, "nxfuncs")
 		for i := 0; i < nx; i++ {
-			fd := g.genFunc(pkg, nil, fmt.Sprintf("X%d", i), nil, seen)
+			name := fmt.Sprintf("X%d", i)
+			// a helper of the external test package that carries the name of a
+			// constructor of the package under test: it is not that constructor
+			if g.chance("xtestCtorName", 30) {
+				for _, td := range types {
+					if td.HasCtor() && td.Exported() && !strings.HasPrefix(td.Constructors[0], "Missing") {
+						name = td.Constructors[g.pick("xtestCtorIdx", len(td.Constructors))]
+						break
+					}
+				}
+				for _, d := range xf.Decls {
+					if fd, ok := d.(*FuncDecl); ok && fd.Name == name {
+						name = fmt.Sprintf("X%d", i)
+					}
+				}
+			}
+			fd := g.genFunc(pkg, nil, name, nil, seen)
 			xf.Decls = append(xf.Decls, fd)
 		}
 		g.inXTest = false
@@ -654,7 +672,7 @@ func (g *gen) genFields(td *TypeDecl, own []*TypeDecl, earlier []*Pkg) {
 		ptr := g.chance("wPtr", 40)
 		add(&Field{Name: "W", Type: o, Ptr: ptr, Ref: &TypeRef{Type: o, Ptr: ptr, Wrap: wraps[g.pick("wWrap", 4)]}})
 	}
-	if len(cands) > 0 && g.chance("fieldEmbedded", 15) {
+	if len(cands) > 0 && g.chance("fieldEmbedded", 25) {
 		o := cands[g.pick("embType", len(cands))]
 		ptr := g.chance("embPtr", 30)
 		add(&Field{Name: o.Name, Type: o, Ptr: ptr, Embedded: true, Ref: &TypeRef{Type: o, Ptr: ptr}})
@@ -666,6 +684,23 @@ func (g *gen) genFields(td *TypeDecl, own []*TypeDecl, earlier []*Pkg) {
 		if g.chance("mutable", 25) {
 			f.Mutable = true
 		}
+	}
+}
+
+// mapKey picks a named key type for map[K]T mentions: a defined int type that
+// carries neither @testonly nor @packageonly (the key itself must stay silent)
+func (g *gen) mapKey(ref *TypeRef, cands []*TypeDecl) {
+	if ref.Wrap != "map[string]" || !g.chance("namedMapKey", 40) {
+		return
+	}
+	var ks []*TypeDecl
+	for _, k := range cands {
+		if k.Kind == KInt && !k.TestOnly && k.PackageOnly == nil && (k.Exported() || k.Pkg == g.curPkg && !g.inXTest) {
+			ks = append(ks, k)
+		}
+	}
+	if len(ks) > 0 {
+		ref.WrapKey = ks[g.pick("mapKeyType", len(ks))]
 	}
 }
 
@@ -696,6 +731,9 @@ func (g *gen) annotate(td *TypeDecl) {
 			td.CtorSpelling = strings.Join(td.Constructors, ", ") + " - the only way to build it"
 		case 4:
 			td.CtorSpelling = strings.Join(td.Constructors, ",\t")
+		}
+		if n >= 2 && g.chance("ctorLines", 30) {
+			td.CtorSplit = 1 + g.pick("ctorSplit", n-1)
 		}
 	}
 	if g.has("tonl") && g.chance("testonly", 55) {
@@ -1013,36 +1051,63 @@ func (g *gen) immFamily(sc *scope, td *TypeDecl, vis []*TypeDecl) Stmt {
 			if w.Kind != KStruct || w.Immutable {
 				continue
 			}
-			for _, ef := range w.Fields {
-				if !ef.Embedded || ef.Type == nil || ef.Type.Kind != KStruct {
-					continue
-				}
-				own := map[string]bool{}
-				for _, wf := range w.Fields {
-					own[wf.Name] = true
-				}
-				var promoted []*Field
-				for _, bf := range ef.Type.Fields {
-					if bf.Type == nil && !own[bf.Name] {
-						promoted = append(promoted, bf)
+			// fields reachable through the chain of embedded structs (up to three
+			// levels, by value or by pointer at any hop); a name declared at a
+			// shallower level hides the deeper ones
+			type prom struct {
+				f      *Field
+				holder *TypeDecl
+				depth  int
+			}
+			var promoted []prom
+			seen := map[string]bool{}
+			for _, wf := range w.Fields {
+				seen[wf.Name] = true
+			}
+			cur := w
+			for depth := 1; depth <= 3; depth++ {
+				var ef *Field
+				for _, cf := range cur.Fields {
+					if cf.Embedded && cf.Type != nil && cf.Type.Kind == KStruct {
+						ef = cf
+						break
 					}
 				}
-				if len(promoted) == 0 {
-					continue
+				if ef == nil {
+					break
 				}
-				f := promoted[g.pick("promotedF", len(promoted))]
-				o := sc.operand(w, g.chance("optr", 60), false)
-				s := &Site{ID: g.p.NewID(), Type: ef.Type, Field: f, Opnd: o, Kind: "imm.assign"}
-				switch k := g.pick("promotedKind", 10); {
-				case k < 3 && f.Basic == "int":
-					s.Kind, s.Aux = "imm.incdec", "++"
-				case k < 5 && f.Basic == "int":
-					s.Kind, s.Aux = "imm.compound", "+="
-				case k < 8 && f.Basic != "int":
-					s.Kind = "imm.index"
+				for _, bf := range ef.Type.Fields {
+					if bf.Type == nil && !seen[bf.Name] {
+						promoted = append(promoted, prom{bf, ef.Type, depth})
+					}
 				}
-				return s
+				for _, bf := range ef.Type.Fields {
+					seen[bf.Name] = true
+				}
+				cur = ef.Type
 			}
+			if len(promoted) == 0 {
+				continue
+			}
+			// prefer the deepest chain available
+			pick := promoted[g.pick("promotedF", len(promoted))]
+			for _, pr := range promoted {
+				if pr.depth > pick.depth && g.chance("deeper", 70) {
+					pick = pr
+				}
+			}
+			f := pick.f
+			o := sc.operand(w, g.chance("optr", 60), false)
+			s := &Site{ID: g.p.NewID(), Type: pick.holder, Field: f, Opnd: o, Kind: "imm.assign"}
+			switch k := g.pick("promotedKind", 10); {
+			case k < 3 && f.Basic == "int":
+				s.Kind, s.Aux = "imm.incdec", "++"
+			case k < 5 && f.Basic == "int":
+				s.Kind, s.Aux = "imm.compound", "+="
+			case k < 8 && f.Basic != "int":
+				s.Kind = "imm.index"
+			}
+			return s
 		}
 	}
 	// nested: operand is a wrapper whose field In has type td
@@ -1126,6 +1191,7 @@ func (g *gen) ctorFamily(sc *scope, td *TypeDecl) Stmt {
 	// declarations and empty literals of composite types built from td
 	if td.Kind == KStruct && g.chance("compositeUse", 10) {
 		ref := &TypeRef{Type: td, Ptr: g.chance("cPtr", 40), Wrap: wraps[g.pick("cWrap", 3)]}
+		g.mapKey(ref, visibleTypes(g.curTypes, g.curEarlier))
 		if ref.Wrap == "chan " || g.chance("cVar", 50) {
 			return &Site{ID: g.p.NewID(), Kind: "var.composite", Type: td, Ref: ref, Local: g.localName()}
 		}
